@@ -11,10 +11,19 @@
     consume at least one token whenever they succeed, intersperse/repeat end within fuel above the
     nesting depth and the number of deliverable tokens; (v) the bracket scan and the recovery scan
     end within the lexer's own fuel (C10, C12 theorems are stated with that fuel).
-    Partial: termination of the list loops, of until-variants and of repetitions over non-core
-    bodies is NOT proved; it is decided by the supervised correspondence run
+    (vi) THE WHOLE COMBINATOR MODEL ([C02_every_parse_terminates]): for every grammar within the
+    documented preconditions whose repetition bodies consume at least one token whenever they
+    succeed ([rep_ok]), every lexer standing in the scan, every context (sink or none), store and
+    recovery strategy: with fuel at least  nesting depth + bytes left in the text + 3  the
+    interpreter does not answer RFuel, and a returned lexer stands no earlier than the one given.
+    The measure is the cursor: no lexer operation moves it backwards, a delivery moves it forwards,
+    it never passes the end of the text; stabilize retries only after the cursor moved (or once);
+    every round of the list loop consumes a separator; the recovery and bracket scans run on the
+    lexer's own fuel.
+    What the model cannot exhibit: the real scheduler and allocator - the supervised correspondence
+    run (real code under a watchdog with a memory limit) observes those
     (the real code is run under a watchdog; the model under fuel 80 + 10*len + 10*size). *)
-From Tephra Require Import MetricsSpec CLexer LexerFacts Run Peg RunCore RunRecover RunTotal RunLoops RunFuel.
+From Tephra Require Import MetricsSpec CLexer LexerFacts Run Peg RunCore RunRecover RunTotal RunLoops RunFuel RunSafe RunTerm.
 
 Theorem C02_core_fuel_suffices :
   forall m, 1 <= tabw m -> forall t, wf_text t ->
@@ -96,6 +105,52 @@ Theorem C02_nonnull_satisfiable :
   (forall k, nonnull (GOne k)) /\ (forall a b, nonnull a -> nonnull (GBoth a b)).
 Proof. split; [exact nonnull_one|exact nonnull_both]. Qed.
 Print Assumptions C02_nonnull_satisfiable.
+
+(** every parse terminates: the whole model *)
+Theorem C02_every_parse_terminates :
+  forall m, 1 <= tabw m -> forall t, wf_text t ->
+  forall F g, pre_ok g = true -> rep_ok m t g ->
+  forall lx ys c st, Inv m t lx ys -> tdepth g + rem t lx + 3 <= F ->
+  match run F g lx c st with
+  | (ROk _ lx', _) => exists ys', Inv m t lx' ys' /\ adv lx lx'
+  | (RFuel, _) => False
+  | _ => True
+  end.
+Proof. exact run_terminates. Qed.
+Print Assumptions C02_every_parse_terminates.
+
+Theorem C02_measure_meaning :
+  (forall t l, rem t l = blen t - byte (c_cur l))
+  /\ (forall lx lx', adv lx lx' = (c_cur lx' = c_cur lx \/ byte (c_cur lx) < byte (c_cur lx')))
+  /\ (forall m t a, progress m t a =
+        forall f l ys c st v l' st', Inv m t l ys -> run f a l c st = (ROk v l', st') -> byte (c_cur l) < byte (c_cur l')).
+Proof. repeat split; reflexivity. Qed.
+Print Assumptions C02_measure_meaning.
+
+(** the cursor never moves backwards, whatever the operation *)
+Theorem C02_cursor_monotone :
+  forall m, 1 <= tabw m -> forall t, wf_text t ->
+  forall lx ys, Inv m t lx ys ->
+  (forall o lx', c_next lx = Ok (o, lx') -> adv lx lx' /\ (o <> None -> byte (c_cur lx) < byte (c_cur lx')))
+  /\ (forall o lx', c_peek lx = Ok (o, lx') -> adv lx lx')
+  /\ (forall fl o lx', c_set_filter lx fl = Ok (o, lx') -> adv lx lx')
+  /\ (forall lx', c_start_sublex lx = Ok lx' -> adv lx lx')
+  /\ (forall st b lx' st', advance_to_recover lx st = (Ok (b, lx'), st') -> adv lx lx').
+Proof.
+  intros m Htab t Ht lx ys HI. repeat split.
+  - exact (proj1 (next_adv m Htab t Ht lx ys o lx' HI H)).
+  - exact (proj2 (next_adv m Htab t Ht lx ys o lx' HI H)).
+  - intros o lx' E. exact (peek_adv m Htab t Ht lx ys o lx' HI E).
+  - intros fl o lx' E. exact (set_filter_adv m Htab t Ht lx ys fl o lx' HI E).
+  - intros lx' E. exact (start_sublex_adv m Htab t Ht lx ys lx' HI E).
+  - intros st b lx' st' E. exact (advance_to_recover_adv m Htab t Ht lx ys st b lx' st' HI E).
+Qed.
+Print Assumptions C02_cursor_monotone.
+
+Theorem C02_progress_satisfiable :
+  forall m, 1 <= tabw m -> forall t, wf_text t -> (forall k, progress m t (GOne k)) /\ (forall p, progress m t (GPred p)).
+Proof. intros m Htab t Ht. split; [exact (progress_one m Htab t Ht)|exact (progress_pred m Htab t Ht)]. Qed.
+Print Assumptions C02_progress_satisfiable.
 
 (** concrete: stabilize(one b) on "a" without recover state and with one: both end at once *)
 Example C02_example :
